@@ -31,6 +31,8 @@ func init() {
 			{"C10-R5", "ambient conversion: wider levels are consulted only where the narrower ones are UNSET", c10r5},
 			{"C10-R6", "who may use a namespace/mesh-level mode directly", c10r6},
 			{"C10-R7", "ambient: PERMISSIVE and DISABLE are treated alike wherever a non-STRICT mode is looked for", c10r7},
+			{"C10-R8", "client-side inference: a TLS-on answer always comes after the namespace/mesh policy was consulted", c10r8},
+			{"C10-R9", "per-port passthrough chains: the policy's port is matched against workload-side ports only", c10r9},
 		},
 	})
 }
@@ -742,4 +744,131 @@ func c10r7(c *Ctx) {
 	}
 	c.Check("ambient: PERMISSIVE tests found", token.NoPos, n >= 3, "fewer isMtlsModePermissive call sites than confirmed by hand")
 	c.Floor(4)
+}
+
+
+// C10-R8: BestEffortInferServiceMTLSMode is the client-side half of "every component that derives this mode agrees" for
+// clusters without per-endpoint transport-socket matches. It may answer DISABLE/UNKNOWN early (external service, a
+// passthrough cluster with a sidecar-less instance), but any other answer - the one that makes the client send mutual
+// TLS - is only given after the namespace/mesh PeerAuthentication was consulted: every path to a return of anything but
+// the constants MTLSDisable / MTLSUnknown passes GetNamespaceMutualTLSMode. A short cut (e.g. the passthrough branch
+// answering PERMISSIVE itself) makes clients originate mTLS to a namespace whose policy is DISABLE.
+func c10r8(c *Ctx) {
+	p := c.P
+	fn := p.Func(pkgModel, "PushContext", "BestEffortInferServiceMTLSMode")
+	obj := p.FuncObj(pkgModel, "AuthenticationPolicies", "GetNamespaceMutualTLSMode")
+	early := map[int64]bool{}
+	for _, name := range []string{"MTLSDisable", "MTLSUnknown"} {
+		k, _ := constInt(p.Const(pkgModel, name))
+		early[k] = true
+	}
+	consult := deepMust(func(ins ssa.Instruction) bool {
+		if isCallTo(ins, obj) {
+			return true
+		}
+		ci, ok := ins.(ssa.CallInstruction)
+		return ok && ci.Common().IsInvoke() && ci.Common().Method.Name() == "GetNamespaceMutualTLSMode"
+	}, 2)
+	n := 0
+	for _, b := range fn.Blocks {
+		r, ok := b.Instrs[len(b.Instrs)-1].(*ssa.Return)
+		if !ok || len(r.Results) != 1 {
+			continue
+		}
+		v := retVal(r, 0)
+		if k, ok := v.(*ssa.Const); ok && k.Value != nil && early[k.Int64()] {
+			continue
+		}
+		n++
+		hit := pathAvoiding(fn, nil, consult, func(ins ssa.Instruction) bool { return ins == ssa.Instruction(r) })
+		c.Check("a non-DISABLE answer is given only after the namespace/mesh policy was consulted", r.Pos(), hit == nil,
+			"BestEffortInferServiceMTLSMode can answer with a mode other than DISABLE/UNKNOWN on a path that never consults the namespace/mesh PeerAuthentication (GetNamespaceMutualTLSMode): the client then originates mutual TLS (or treats the peer as permissive) for a service whose namespace policy says DISABLE, while the server side terminates no TLS")
+	}
+	c.Check("BestEffortInferServiceMTLSMode has policy-derived answers", fn.Pos(), n >= 1, "no return other than the DISABLE/UNKNOWN constants")
+	c.Floor(2)
+}
+
+// C10-R9: needPerPortPassthroughFilterChain decides whether a port named by a port-level PeerAuthentication gets its
+// own passthrough filter chain. portLevelMtls keys are WORKLOAD ports, and the chains that already cover a port are
+// built per workload-side port (Sidecar ingress listener port / the service target's TargetPort). The port argument is
+// therefore only ever compared with those; comparing it with a service port as well suppresses the dedicated chain for
+// a workload port that merely equals some service's port number, and the port-level mode is not enforced there.
+func c10r9(c *Ctx) {
+	p := c.P
+	fn := p.Func("pilot/pkg/networking/plugin/authn", "", "needPerPortPassthroughFilterChain")
+	okField := func(v ssa.Value) (string, bool) {
+		for {
+			switch x := v.(type) {
+			case *ssa.Convert:
+				v = x.X
+				continue
+			case *ssa.ChangeType:
+				v = x.X
+				continue
+			}
+			break
+		}
+		f := fieldOfLoad(v)
+		if f == nil {
+			if call, ok := v.(*ssa.Call); ok {
+				if o := calleeObj(call); o != nil {
+					return o.Name() + "()", o.Name() == "GetNumber" || o.Name() == "GetTargetPort"
+				}
+			}
+			return "", false
+		}
+		return f.Name(), f.Name() == "TargetPort" || f.Name() == "Number"
+	}
+	n := 0
+	var scan func(f *ssa.Function, port ssa.Value, depth int)
+	scan = func(f *ssa.Function, port ssa.Value, depth int) {
+		isPort := func(v ssa.Value) bool {
+			for {
+				if v == port {
+					return true
+				}
+				switch x := v.(type) {
+				case *ssa.Convert:
+					v = x.X
+					continue
+				case *ssa.ChangeType:
+					v = x.X
+					continue
+				}
+				return false
+			}
+		}
+		eachInstr(f, func(ins ssa.Instruction) {
+			switch x := ins.(type) {
+			case *ssa.BinOp:
+				if x.Op != token.EQL && x.Op != token.NEQ {
+					return
+				}
+				other := x.Y
+				if isPort(x.Y) {
+					other = x.X
+				} else if !isPort(x.X) {
+					return
+				}
+				n++
+				name, ok := okField(other)
+				c.Check("the policy's port is compared with a workload-side port", x.Pos(), ok,
+					"needPerPortPassthroughFilterChain compares the port-level policy's port with `"+name+"`, which is not a workload-side port (Sidecar ingress Port.Number / service target TargetPort): a workload port that only coincides with a service port number loses its dedicated passthrough chain and the port-level mTLS mode is not enforced on it")
+			case *ssa.Call:
+				callee := x.Call.StaticCallee()
+				if callee == nil || callee.Pkg != f.Pkg || len(callee.Blocks) == 0 || depth == 0 {
+					return
+				}
+				for k, a := range x.Call.Args {
+					if isPort(a) && k < len(callee.Params) {
+						scan(callee, callee.Params[k], depth-1)
+					}
+				}
+			}
+		})
+	}
+	scan(fn, paramNamed(fn, "port"), 2)
+	c.Check("needPerPortPassthroughFilterChain compares the port with the Sidecar ingress ports and the service targets", fn.Pos(), n >= 2,
+		"fewer than two comparisons of the port argument found")
+	c.Floor(3)
 }
